@@ -624,7 +624,7 @@ IO_DESC = ('catalogue: array<float3>, array<double1>, constant (2), identity, st
            'over a token-emitting probe backend')
 INFO['C06'] = {
     'bounds': IO_DESC + '; every configuration value and stored scalar a symbolic bit pattern (NaN payloads, signed zeros, subnormals, '
-              'infinities); array length 0..2 quick / 0..3 thorough, geometry-consistent states (extents 1..3 with the storage the library allocates), plus long payloads of exactly 86-90 elements (quick) / up to 300 (thorough), plus payloads one element past every integer literal (16..2048) that the array / binary_io sources of the tree under check contain (candidate block sizes of a chunked reader; none on the pinned tree): load(dump(f)) bit-identical at every layer and index, reader consumes '
+              'infinities); array length 0..2 quick / 0..3 thorough, geometry-consistent states (extents 1..3 with the storage the library allocates), plus long payloads of exactly 86-90 elements (quick) / up to 300 (thorough), plus payloads one element past every integer literal (16..2048) that the array / binary_io sources of the tree under check contain (candidate block sizes of a chunked reader; none on the pinned tree), and for literals up to 2^22 (bytes or elements) concrete zero-filled payloads of exactly that size and one element more: load(dump(f)) bit-identical at every layer and index, reader consumes '
               'exactly the written bytes, dump(load(dump(f))) == dump(f) byte for byte',
     'outside': 'arrays longer than the bound; stacks outside the catalogue (covered compositionally by the per-layer probe stacks)',
     'cuts': 'stream model (engine/models.py: istream::read / ostream::write on engine-owned streams); error-message formatting cut',
@@ -666,7 +666,7 @@ def units_C06(tier, seed):
     return U + long_payload_units(tier, 'C06')
 
 
-def io_block_sizes():
+def io_block_sizes(big=False):
     """integer literals (16..2048) in the array / binary_io sources of the tree under check: candidate block sizes of a chunked
     reader or writer. Re-derived from the source on every run; the pinned tree has none."""
     import re
@@ -682,6 +682,8 @@ def io_block_sizes():
         t = re.sub(r'"(?:[^"\\]|\\.)*"', '""', t)
         out |= set(int(m.group(1)) for m in re.finditer(r'(?<![\w.])(\d{2,4})(?:[uU]?[lL]{0,2})\b', t))
         out |= set(1 << int(m.group(1)) for m in re.finditer(r'\b1[uU]?[lL]{0,2}\s*<<\s*(\d{1,2})', t))
+    if big:
+        return sorted(b for b in out if 2048 < b <= (1 << 22))
     return sorted(b for b in out if 16 <= b <= 2048)
 
 
@@ -706,6 +708,12 @@ def long_payload_units(tier, which):
                 cross.append((0, 13, 2 * bsz // 3 + 2))  # ... and past the second full block
             if bsz <= 300:
                 cross.append((13, 0, bsz // 3 + 1))
+    # very large block sizes (bytes or elements, up to 2^22): exact multiples and one past, concrete zero contents, array<double1>
+    for lit in io_block_sizes(big=True):
+        lens_big = sorted({lit // 8, lit // 8 + 1, lit // 4} | ({lit} if lit <= (1 << 18) else set()))
+        for ln in lens_big:
+            U += unit(f'c06_roundtrip_big{lit}_11_{ln}', 'c06_io.cpp', f'roundtrip_big_h<11,{ln}>()', sites=[1, 2, 6], weight=ln // 100, timeout=3000,
+                      cfg={'max_instrs': 4_000_000_000, 'loop_cap': 100_000_000})
     if which == 'C07':
         for a, bb, ln in cross:
             U += unit(f'c07_cross_long_{a}_{bb}_{ln}', 'c06_io.cpp', f'cross_len_h<{a},{bb},{ln}>()', sites=[1, 3, 4], weight=ln * 3, timeout=3000,
